@@ -8,6 +8,7 @@ from ..astutil import inside
 from ..cfg import CFG
 from ..core import AnalysisError, const_value
 from ..defuse import DefUse, Terms, show, walk_term
+from ..defuse import key as tkey
 from ..tutil import np_call, strip_conv
 
 EXPLANATION = (
@@ -307,7 +308,7 @@ def _brew_mapping(ctx, f):
     # models is element 0 of zip(*fitted)
     mt = T.of([n for n in ast.walk(pc[0]) if isinstance(n, ast.Name)
                and n.id == "models"][0])
-    ok_m = mt[0] == "item" and mt[2] == 0 and "zip" in show(mt, 200)
+    ok_m = mt[0] == "item" and mt[2] == 0 and "zip" in tkey(mt, 200)
     ctx.check(ok_m, "C02b-models-from-fitted", f,
               "the models handed to _predict are the (sorted) fitted models",
               f"models = {show(mt, 120)}", node=pc[0])
@@ -722,7 +723,7 @@ def _parse_in_chunks(ctx):
         val = T.of(a.args[0])
         sel_ok = False
         if val[0] == "sub" and val[1][0] == "attr" and val[1][2] == "loc":
-            sel = show(val[2], 300)
+            sel = tkey(val[2], 300)
             sel_ok = (f"set(elem(enumerate({p_idx}))" in sel or
                       "set(" in sel) and "chunk.index" in sel.replace(
                           p_chunk, "chunk") and "&" in sel
@@ -730,7 +731,7 @@ def _parse_in_chunks(ctx):
             inter = [x for x in walk_term(val[2]) if x[0] == "bin"
                      and x[1] == "&"]
             sel_ok = bool(inter) and any(
-                ("elem" in show(x[2], 200) or "elem" in show(x[3], 200))
+                ("elem" in tkey(x[2], 200) or "elem" in tkey(x[3], 200))
                 for x in inter)
         ok = recv == f"{p_train}[{p_file}][{k}]" and sel_ok
     ctx.check(ok, "C02b-training-rows-by-index", g,
